@@ -108,7 +108,7 @@ class Ctx:
                     resume = self._resume_args(r, int(r.report["resume_from"]))
                     if resume is not None:
                         cont.append(resume)
-            if cont and not nxt and continuations < 200:
+            if cont and not nxt and continuations < 3000:
                 # voluntary continuations do not count as crash restarts
                 continuations += len(cont)
                 pending = cont
@@ -116,7 +116,7 @@ class Ctx:
             pending = nxt + cont
             attempt += 1
         if pending:
-            self.inconclusive.append("%s: %d worker(s) kept crashing; remaining cases not run" % (name, len(pending)))
+            self.inconclusive.append("%s: %d worker(s) kept ending early (crash or violation in almost every case); remaining cases not run" % (name, len(pending)))
         self.stages.append({"name": name, "engine": engine, "cfg": cfg, "workers": len(arg_lists),
                             "build_s": round(tb, 1), "run_s": round(time.time() - t0 - tb, 1)})
         return results
